@@ -325,6 +325,7 @@ def _expected(cname, op, me, kind, arg, c):
 
 
 def run(ctx):
+    wrappers.r_psdstore(ctx)    # the LMI constructor is an operation of the DSL too: it copies what it is given and never writes into the caller's array
     r_nomut(ctx)
     dictops.r_dictops(ctx)
     r_hash(ctx)
